@@ -37,7 +37,8 @@ def Heap.set (h : Heap) (i : Nat) (a : Assum) : Heap := ⟨h.objs.set i a⟩
     `alwaysCausal`: the class being constructed is an impedance / admittance / transfer class. -/
 def derive (copies : Bool) (h : Heap) (src : ExprRef) (alwaysCausal : Bool) : Heap × ExprRef :=
   let (h1, id) := if copies then h.alloc (h.get src.ass) else (h, src.ass)
-  let h2 := if alwaysCausal then h1.set id { h1.get id with causal := true } else h1
+  -- `Assumptions.set('causal', True)` pops 'dc', 'ac', 'causal', 'unknown' and then sets 'causal'
+  let h2 := if alwaysCausal then h1.set id ⟨true, false, false⟩ else h1
   -- `merge()` returns a new Assumptions object for the new expression
   let (h3, nid) := h2.alloc (h2.get id)
   (h3, ⟨nid⟩)
@@ -75,5 +76,54 @@ def renumberExplicit {C : Type} (fill : Dict → C → Dict) (c : C) : Dict := f
 def calls {C : Type} (fill : Dict → C → Dict) (mutableDefault : Bool) : Proc → List C → Proc
   | p, [] => p
   | p, c :: rest => calls fill mutableDefault (renumber fill mutableDefault p c).2 rest
+
+/-! ### `Netlist.renumber` / `augment_node_map` for circuits without wires and without dotted node names -/
+
+abbrev SDict := List (String × String)
+
+def sput (m : SDict) (k v : String) : SDict :=
+  match m with
+  | [] => [(k, v)]
+  | p :: ps => if p.1 = k then (k, v) :: ps else p :: sput ps k v
+
+/-- the loop `for key in enodes: newkey = node_map[key] if key in node_map else numbers.pop(0); node_map[key] = newkey`;
+    `none` = `numbers.pop(0)` on an empty list (IndexError) -/
+def assignNumbers : SDict → List String → List String → Option SDict
+  | m, _, [] => some m
+  | m, nums, n :: rest =>
+    match m.lookup n with
+    | some _ => assignNumbers m nums rest
+    | none =>
+      match nums with
+      | [] => none
+      | x :: xs => assignNumbers (sput m n x) xs rest
+
+/-- `augment_node_map(node_map)` of a circuit whose nodes, in the order they are met in the components, are `ns`:
+    node 0 keeps its name; an entry for a node the circuit does not have raises ('Unknown node'); the numbers
+    1..len(nodes) not used as new names are handed out in node order -/
+def augmentNodeMap (m : SDict) (ns : List String) : Option SDict :=
+  let m1 := if ns.contains "0" && (m.lookup "0").isNone then sput m "0" "0" else m
+  if m1.any (fun p => !ns.contains p.1) then none
+  else
+    let numbers := ((List.range ns.length).map (fun k => toString (k + 1))).filter (fun x => !(m1.map (·.2)).contains x)
+    assignNumbers m1 numbers ns
+
+structure SProc where
+  dflt : SDict
+deriving DecidableEq, Repr
+
+/-- `cct.renumber()`: `if len(node_map) != len(self.nodes): node_map = self.augment_node_map(node_map)`; the answer is
+    the mapping of the circuit's own nodes (`none`: the call raises).  With a mutable default the dictionary that
+    `augment_node_map` filled IS the default of the next call. -/
+def renumberS (mutableDefault : Bool) (p : SProc) (ns : List String) : Option SDict × SProc :=
+  let m0 : SDict := if mutableDefault then p.dflt else []
+  let r := if m0.length ≠ ns.eraseDups.length then augmentNodeMap m0 ns.eraseDups else some m0
+  match r with
+  | none => (none, p)        -- raised before anything was stored ... except what `augment_node_map` already wrote:
+  | some m => (some (m.filter (fun q => ns.contains q.1)), if mutableDefault then ⟨m⟩ else p)
+
+def callsS (mutableDefault : Bool) : SProc → List (List String) → List (Option SDict)
+  | _, [] => []
+  | p, ns :: rest => (renumberS mutableDefault p ns).1 :: callsS mutableDefault (renumberS mutableDefault p ns).2 rest
 
 end Lcapy.Alias
